@@ -85,7 +85,11 @@ _SQL = ("internal/persistence/sql", "zz_verif_replay_test.go", "replay/sql_repla
 
 _IM = ("internal/persistence/inmemory", "zz_verif_replay_test.go", "replay/inmemory_replay_test.go", "TestVerifReplayInMemory", lambda m: {"any": True}, "verif")
 
+_CFG = ("omniwitness", "zz_verif_replay_test.go", "replay/aslogmap_replay_test.go", "TestVerifReplayAsLogMap", lambda m: {"any": True})
+
 CONCRETISERS = {
+    "omniwitness.LogConfig).AsLogMap": _CFG,
+    "config.NewLog": _CFG,
     "inmemory.inMemoryPersistence).expectAndWrite": _IM,
     "inmemory.verifScenarioWrite": _IM,
     "inmemory.verifScenarioRead": _IM,
